@@ -175,7 +175,7 @@ CONDITIONS = [
          pre=["0 <= i < %d" % NA, "0 <= j < %d" % NA, "0 <= k < %d" % NA, "0 <= h <= %d" % len(HOSTILE), "0 <= m < %d" % len(MSGS)],
          partitions={"quick": [{"i": a, "h": 0, "k": 0, "m": a % 3, "response": a % 2 == 0, "via_entity": a % 3 == 0} for a in range(NA)] +
                               [{"i": 0, "j": 0, "k": 0, "h": x} for x in range(1, len(HOSTILE) + 1)],
-                     "thorough": [{"i": a, "j": b, "h": 0} for a in range(NA) for b in range(NA)] +
+                     "thorough": [{"i": a, "j": b, "k": (a + b) % NA, "h": 0, "via_entity": (a + b) % 2 == 0} for a in range(NA) for b in range(NA)] +
                                  [{"i": 0, "j": 0, "k": 0, "h": x} for x in range(1, len(HOSTILE) + 1)]},
          timeout={"quick": 600, "thorough": 2400}, path_timeout=60,
          functions=["pack.http_form_post_message", "entity.Entity.apply_binding (POST)", "httpbase.HTTPBase.use_http_form_post", "entity.Entity.unravel (POST)"],
@@ -187,7 +187,7 @@ CONDITIONS = [
          pre=["0 <= i < %d" % NA, "0 <= j < %d" % NA, "0 <= k < %d" % NA, "0 <= h <= %d" % len(HOSTILE), "0 <= m < %d" % len(MSGS), "0 <= dq <= 1"],
          partitions={"quick": [{"i": a, "h": 0, "k": 0, "m": (a + 1) % 3, "dq": a % 2, "signed": (a // 2) % 2 == 0, "response": a % 3 == 0} for a in range(NA)] +
                               [{"i": 0, "j": 0, "k": 0, "h": x, "m": 0} for x in range(1, len(HOSTILE) + 1)],
-                     "thorough": [{"i": a, "j": b, "h": 0, "signed": sg} for a in range(NA) for b in range(NA) for sg in (False, True)] +
+                     "thorough": [{"i": a, "j": b, "k": (a + 2 * b) % NA, "h": 0, "signed": (a + b) % 2 == 0, "dq": a % 2} for a in range(NA) for b in range(NA)] +
                                  [{"i": 0, "j": 0, "k": 0, "h": x} for x in range(1, len(HOSTILE) + 1)]},
          timeout={"quick": 600, "thorough": 2400}, path_timeout=60,
          functions=["pack.http_redirect_message", "s_utils.deflate_and_base64_encode", "s_utils.decode_base64_and_inflate", "entity.Entity.unravel (Redirect)"],
